@@ -969,8 +969,8 @@ def correspond(ctx):
 
     _lap(ctx, "builtin")
     # 1. exhaustive small scope
-    L = ctx.scale(4, 6)
-    Lmixed = ctx.scale(3, 5)
+    L = ctx.scale(4, 5)   # length 6 takes over an hour: the thorough budget is 20 min
+    Lmixed = ctx.scale(3, 4)
     cases = []
     routes = ["bytes", "hex", "bytevec", "bvval", "hex0x"]
     idx = 0
@@ -1038,7 +1038,7 @@ def correspond(ctx):
         lst.append((rng.randrange(n + 2), rng.choice((255, 256, 257, 1000, 4096, 5000))))
         return tuple(lst)
     med = []
-    for _ in range(ctx.scale(120, 2500)):
+    for _ in range(ctx.scale(120, 800)):
         n = rng.choice((rng.randrange(1, 80), rng.randrange(30, 400)))
         s = random_code(rng, n, pool, rng.choice((0.0, 0.0, 0.02, 0.1)))
         med.append(Case(random_chunking(rng, s, [32, 33, 34, 64]), "bytevec"))
